@@ -54,6 +54,11 @@ class SeqTheory:
             z3.Implies(z3.And(Len(a) <= k, k < Len(a) + Len(b)),
                        Idx(App(a, b), k) == Idx(b, k - Len(a)))),
             patterns=[Idx(App(a, b), k)]))
+        # list.append: the last element of a ++ [x] is x (stated directly; the general axiom needs the solver to equate
+        # the index terms k - Len(a) and 0 by arithmetic, which E-matching does not always find)
+        A(z3.ForAll([a, x, k], z3.Implies(k == Len(a), Idx(App(a, Unit(x)), k) == x),
+                    patterns=[Idx(App(a, Unit(x)), k)]))
+        A(z3.ForAll([a, x], Idx(App(a, Unit(x)), Len(a)) == x, patterns=[App(a, Unit(x))]))
         # reverse direction: an index into a component is an index into the append
         A(z3.ForAll([a, b, k], z3.Implies(z3.And(0 <= k, k < Len(b)),
                                           Idx(App(a, b), k + Len(a)) == Idx(b, k)),
@@ -226,7 +231,9 @@ class Prelude:
 
     def strlit(self, text: str) -> z3.ExprRef:
         if text not in self.strlits:
-            c = z3.Const("str!" + repr(text), self.Str)
+            # SMT-LIB-safe symbol (z3 prints some quoted names in a form its own parser and cvc5 reject)
+            safe = "".join(ch if ch.isalnum() else "_" for ch in text)[:24]
+            c = z3.Const("strlit_%d_%s_%s" % (len(self.strlits), safe, text.encode("utf8").hex()[:16]), self.Str)
             for other_text, other in self.strlits.items():
                 self.axioms.append(c != other)
             self.strlits[text] = c
